@@ -338,8 +338,8 @@ fn marker_for(t: ValType) -> Val {
     match t {
         ValType::I32 => Val::I32(0x5EED_0001),
         ValType::I64 => Val::I64(0x5EED_0002_0000_0003),
-        ValType::F32 => Val::F32(0x4049_0fdb),
-        ValType::F64 => Val::F64(0x4009_21fb_5444_2d18),
+        ValType::F32 => Val::F32(0x7fa0_0001),
+        ValType::F64 => Val::F64(0x7ff4_0000_0000_0001),
         ValType::V128 => Val::V128(0x5EED_0004_0000_0000_0000_0000_0000_0005),
         ValType::Ref(r) if r == wasmparser::RefType::EXTERNREF => Val::ExternRef(None),
         ValType::Ref(_) => Val::FuncRef(None),
